@@ -147,6 +147,14 @@ def work(job):
                 pth = os.path.join(box.proj, victim)
                 with open(pth, "ab") as f:
                     f.write(b"// saved by somebody else while breadlog was running\n")
+        if kind == "scratch-vanishes":
+            def hook():
+                for f in os.listdir(box.tmp):
+                    if f.startswith("breadlog-"):
+                        try:
+                            os.unlink(os.path.join(box.tmp, f))
+                        except OSError:
+                            pass
         try:
             pre = set(core.snapshot(box.root, content=False))       # what the harness itself put there
             rec = core.run_breadlog(built, box, cfg, rules=rules, shim=True, tmpdir=tmpdir, timeout=120, on_first_fire=hook)
@@ -240,6 +248,13 @@ def main(tier):
                 # the file in hand (read already, scratch copy about to be created) is the one that gets saved
                 nsave += 1
                 jobs.append((built, pi, proj, expected, "concurrent-save@%d:%s" % (o["n"], last_read), "n=%d,act=delay:400" % o["n"], "concurrent-save", False))
+        # a temp-directory cleaner (or somebody's `rm`) removes the scratch copy just before it is moved into place: the rename
+        # then fails for real (ENOENT) - a failure to move the new content into place like any other
+        nv = 0
+        for o in ops:
+            if fault.phase_of(o) == "tmp-rename" and nv < 3:
+                nv += 1
+                jobs.append((built, pi, proj, expected, "scratch-vanishes-before-rename@%d" % o["n"], "n=%d,act=delay:400" % o["n"], "scratch-vanishes", False))
         # the clean run itself: normal exit must leave no temporary file
         jobs.append((built, pi, proj, expected, "no-fault", "n=999999,act=delay:0", "clean", False))
     for res in frame.pmap(work, jobs, chunksize=4):
